@@ -120,10 +120,99 @@ class Ctx:
     def fail(self, family, what, case, expected=None, actual=None, key=None):
         self.failures.append(dict(family=family, what=what, case=case, expected=expected, actual=actual, key=key))
 
+
+# ------------------------------------------------------------------ the proved tie (translator) and its falsifier
+EXT_PIDS = {"C01", "C04", "C05", "C06", "C07", "C08", "C09"}
+TOOLPY = "/opt/veriftools/pyvenv/bin/python"
+
+def ext_case(r):
+    """operation script that replays a srcdiff counterexample on the real crates and on the model"""
+    g, fn, rp = r["unit"], r["fn"], r["replay"]
+    nat = "u32" if common.GENS.get(g, {}).get("w") == 32 else "u64"
+    if rp["kind"] == "seed":
+        return [f"new 0 {g} seed {rp['hex']}", "ser 0", f"{nat} 0", "ser 0"]
+    if rp["kind"] == "u64":
+        return [f"new 0 {g} u64 {rp['hex']}", "ser 0", f"{nat} 0", "ser 0"]
+    op = {"next_u32": "u32 0", "next_u64": "u64 0", "jump": "jump 0", "long_jump": "ljump 0"}.get(fn)
+    if fn.startswith("fill_bytes"):
+        op = f"fill 0 {fn.split(':')[1]}"
+    return [f"de 0 {g} {rp['hex']}", op, "ser 0", f"{nat} 0", "ser 0"]
+
+def ext_stage(ctx, ob, pid):
+    """correspondence theorems regenerated from the current source; on a broken / missing one: z3 search for an input on which
+    the current source differs from the pinned source (srcdiff), replayed on the real crates and on the model."""
+    import exttie, subprocess
+    info = dict(ran=False)
+    if pid not in EXT_PIDS:
+        return info
+    try:
+        res = exttie.run(common.REPO)
+    except Exception as e:
+        ctx.notes.append("translator tie could not run: " + repr(e)[:300])
+        return info
+    mine = {k: v for k, v in res["theorems"].items() if pid in v["props"]}
+    try:
+        exp = json.load(open(os.path.join(common.VERIF, "pinned_src", "EXPECTED.json")))["theorems"]
+    except Exception:
+        exp = {}
+    missing = sorted(k for k, v in exp.items() if pid in v["props"] and k not in res["theorems"])
+    broken = sorted(k for k, v in mine.items() if not v["ok"])
+    info.update(ran=True, key=res["key"], cached=res.get("cached"), theorems=len(mine), proved=len(mine) - len(broken),
+                broken=broken, left_fragment=missing,
+                untranslated={u: r.get("skipped") or r.get("error") for u, r in res["report"].items() if r.get("skipped") or r.get("error")})
+    for k, v in mine.items():
+        ob["obligations"].append("ExtTie." + k)
+        if v["ok"]:
+            ob["discharged"].append("ExtTie." + k)
+            ob["axioms"].update(v.get("axioms") or [])
+    suspects = broken + missing
+    if not suspects:
+        return info
+    # falsifier: compare the current source with the pinned source of these functions
+    only = ",".join(sorted(set(suspects)))
+    sd = dict(results=[])
+    try:
+        p = subprocess.run([TOOLPY, os.path.join(common.VERIF, "tools", "srcdiff.py"), common.REPO, "--only", only, "--timeout", "30000"],
+                           capture_output=True, text=True, timeout=1800, stdin=subprocess.DEVNULL)
+        sd = json.loads(p.stdout)
+    except Exception as e:
+        ctx.notes.append("srcdiff could not run: " + repr(e)[:300])
+    by = {}
+    for r in sd.get("results", []):
+        by.setdefault(f"{r['unit']}.{r['fn'].split(':')[0]}", []).append(r)
+    info["srcdiff"] = {k: sorted({r["status"] for r in v}) for k, v in by.items()}
+    directed = []
+    for name in suspects:
+        rs = by.get(name, [])
+        st = {r["status"] for r in rs}
+        for r in rs:
+            if r["status"] == "different" and r.get("replay"):
+                directed.append(ext_case(r))
+        if name in broken:
+            if st and st <= {"same", "equivalent"}:
+                # the Lean proof script does not go through for the rewritten source, but z3 shows the rewrite equivalent to
+                # the source for which the theorem was proved: reported as an SMT result, not as a discharged theorem
+                ctx.notes.append(f"ExtTie.{name}: not re-proved in Lean for the current source; z3: current source equivalent to the "
+                                 f"pinned source (for which it is proved) — accepted as behaviour-preserving rewrite")
+                ob["smt_equivalent"] = ob.get("smt_equivalent", []) + ["ExtTie." + name]
+            else:
+                ob["broken"].append(("ExtTie." + name, (mine[name].get("error") or "")[:300]))
+        else:
+            ctx.notes.append(f"{name} left the translatable fragment ({'; '.join(sorted(st)) or 'no srcdiff result'}): "
+                             f"only the sampled correspondence covers it in this run")
+    if directed:
+        ctx.absolute("inputs on which the current source differs from the pinned source (found by z3 on the translated functions), "
+                     "replayed on the real crates and on the model", directed)
+        ctx.dist["srcdiff-directed"] += len(directed)
+    return info
+
 def decide(ctx, ob, falsifier, absolute=False):
     """returns exit code; prints VIOLATION / KNOWN-FINDING lines"""
     pid = ctx.pid
-    proved = ob["obligations"] and not ob["broken"] and not all(t.endswith(".placeholder") for t in ob["obligations"])
+    # "model = reference" rests on the theorems of Props/<Cxx>.lean; a broken correspondence theorem of the translator tie
+    # (ExtTie.*) says the CODE moved away from the model, which is exactly when a disagreement is a failing input
+    props_broken = [b for b in ob["broken"] if not str(b[0]).startswith("ExtTie.")]
+    proved = ob["obligations"] and not props_broken and not all(t.endswith(".placeholder") for t in ob["obligations"])
     if absolute and proved and ctx.disagreements and not ctx.failures:
         # The property says "the code equals the reference"; the theorems (all discharged) say the model equals
         # the reference on every input, so an input on which code and model differ is a failing input of the property.
@@ -213,6 +302,7 @@ def main():
     ob = check_obligations(pid, thorough=ctx.thorough)
 
     # 2. tie against the current tree
+    ext_info = dict(ran=False)
     ok, log = lake_build(["modeldriver"])
     if not ok:
         ob["broken"].append(("modeldriver", "model driver does not build: " + log[-800:]))
@@ -224,6 +314,11 @@ def main():
         ctx.disagreements.append(dict(family="build", case=["cargo build (harness against /repo)"], line=0,
                                       cmd="build", impl="build failed", model="-"))
     elif ok:
+        try:
+            ext_info = ext_stage(ctx, ob, pid)
+        except Exception as e:
+            ext_info = dict(ran=False, error=repr(e))
+            ctx.notes.append("ext stage crashed: " + repr(e) + traceback.format_exc()[-800:])
         try:
             spec["tie"](ctx)
         except Exception as e:
@@ -248,7 +343,8 @@ def main():
         traces_validated_against_impl=ctx.traces_validated,
         families=dict(ctx.families), distribution={k: v for k, v in ctx.dist.most_common(60)},
         model_vs_impl_disagreements=len(ctx.disagreements), impl_vs_oracle_failures=len(ctx.failures),
-        known_finding_hits=dict(known_hits), notes=ctx.notes[:10])
+        known_finding_hits=dict(known_hits), notes=ctx.notes[:10],
+        translator_tie=ext_info, smt_equivalent=ob.get("smt_equivalent", []))
     common.LEVEL = "exploration" if all(t.endswith(".placeholder") for t in ob["obligations"]) else "proof"
     write_evidence(pid, tier, seed, cov, time.time() - t0, nviol + (1 if rc and not nviol else 0),
                    spec.get("assumptions", []) + ["little-endian 64-bit host", "model-code tie is sampled"])
